@@ -424,4 +424,120 @@ class MachineSuite(Suite):
         return f"{conn}/faults={min(nf, 3)}"
 
 
-SUITES = [MachineSuite()]
+class SuppressSuite(Suite):
+    """A composition with a step whose OWN teardown swallows an exception (`try: yield / except E: pass`): the machine
+    context as a whole never swallows -- an error raised by the body, by a later init step or by the init() hook still
+    reaches the caller of `with m:`, everything started is torn down in reverse order, and the body never runs on a
+    machine whose initialisation failed.  Outside the Coq model (whose steps do not suppress): oracle only."""
+    name = "suppress"
+    model_fn = None
+
+    def gen(self, tier, rng):
+        for where in ("pre", "connect", "init", "post"):
+            for fault in ("body", "hook", "later-init", "none"):
+                for nested in (False, True):
+                    yield {"where": where, "fault": fault, "nested": nested}
+
+    def run(self, case):
+        log = []
+
+        class Boom(Exception):
+            pass
+
+        @contextlib.contextmanager
+        def swallowing(tag):
+            log.append(tag + "+")
+            try:
+                yield None
+            except Boom:
+                pass
+            finally:
+                log.append(tag + "-")
+
+        @contextlib.contextmanager
+        def plain_step(tag, raise_at_setup=False):
+            if raise_at_setup:
+                raise Boom(tag)
+            log.append(tag + "+")
+            try:
+                yield None
+            finally:
+                log.append(tag + "-")
+
+        class Conn(connector.Connector):
+            @contextlib.contextmanager
+            def _connect(self):
+                cm = swallowing("connect") if case["where"] == "connect" else plain_step("connect")
+                with cm:
+                    with channel.NullChannel() as ch:
+                        yield ch
+
+            def clone(self):
+                raise NotImplementedError()
+
+        class Pre(machine.PreConnectInitializer):
+            def _init_pre_connect(self):
+                return swallowing("pre") if case["where"] == "pre" else plain_step("pre")
+
+        class Init(machine.Initializer):
+            def _init_machine(self):
+                return swallowing("init") if case["where"] == "init" else plain_step("init")
+
+        class Late(machine.Initializer):
+            def _init_machine(self):
+                return plain_step("late", raise_at_setup=(case["fault"] == "later-init"))
+
+        class Post(machine.PostShellInitializer):
+            def _init_post_shell(self):
+                return swallowing("post") if case["where"] == "post" else plain_step("post")
+
+        class M(Conn, Pre, Init, Late, Post, shell.RawShell):
+            name = "verif-suppress"
+
+            def init(self):
+                log.append("hook")
+                if case["fault"] == "hook":
+                    raise Boom("hook")
+
+        m = M()
+        outcome = "returned"
+        with contextlib.redirect_stdout(io.StringIO()):
+            try:
+                with m:
+                    log.append("body")
+                    if case["nested"]:
+                        with m:
+                            log.append("nested")
+                    if case["fault"] == "body":
+                        raise Boom("body")
+            except Boom as e:
+                outcome = "raised:" + str(e)
+        return [outcome, log, getattr(m, "_rc", None)]
+
+    def oracle(self, case, obs):
+        outcome, log, rc = obs
+        fails = []
+        want = {"body": "raised:body", "hook": "raised:hook", "later-init": "raised:late", "none": "returned"}[case["fault"]]
+        if outcome != want:
+            fails.append(f"`with m:` {outcome} although {case['fault']!r} failed: the error must propagate (want {want}); log {log}")
+        if case["fault"] in ("hook", "later-init") and "body" in log:
+            fails.append(f"the body ran although the initialisation failed: {log}")
+        opened = [x[:-1] for x in log if x.endswith("+")]
+        closed = [x[:-1] for x in log if x.endswith("-")]
+        if closed != opened[::-1]:
+            fails.append(f"steps entered {opened} but torn down {closed} (must be the reverse order, each once)")
+        if rc != 0:
+            fails.append(f"re-entrancy counter is {rc} after the context was left")
+        return fails
+
+    def nontrivial(self, case, obs):
+        return case["fault"] != "none"
+
+    def klass(self, case, obs):
+        return case["where"] + "/" + case["fault"]
+
+    def finding_key(self, case, obs, failure):
+        return None
+
+
+SUITES = [MachineSuite(), SuppressSuite()]
